@@ -135,6 +135,123 @@ theorem panelMatrix_posDef_of_le (num : ℕ) {m n m' n' : ℕ} (hm : m ≤ m') (
   rw [panelMatrix_nested num hm hn entry base I hI hsym]
   exact hpd.submatrix (embedIndex_injective num hm hn)
 
+/-! ### the same for the sub-interval kernels (`panelCooYX`: loops nested `j, l, i, k`) and the conical panel
+(`conePanelCoo`: one loop nest per constant-radius section), and the three monotonicity statements for ANY pair of
+matrices of which one is a principal sub-matrix of the other (so every family above gets them by its `*_nested`) -/
+
+/-- the finalized matrix of a sub-interval (`*y1y2`) kernel of the flat / cylindrical models -/
+noncomputable def panelMatrixYX (num m n : ℕ) (entry : Fin num → Fin num → PCtx ℝ → ℝ) (base : PCtx ℝ)
+    (I : Integrals ℝ) : Matrix (Fin (num * m * n)) (Fin (num * m * n)) ℝ :=
+  fun r c => toFun (panelCooYX num m n 0 entry base I) r.val c.val
+
+/-- the loop order does not change the matrix -/
+theorem panelMatrixYX_eq (num m n : ℕ) (entry : Fin num → Fin num → PCtx ℝ → ℝ) (base : PCtx ℝ) (I : Integrals ℝ) :
+    panelMatrixYX num m n entry base I = panelMatrix num m n entry base I := by
+  ext r c
+  exact panelCooYX_eq num m n 0 entry base I r.val c.val
+
+theorem panelMatrixYX_isHermitian (num m n : ℕ) (entry : Fin num → Fin num → PCtx ℝ → ℝ) (base : PCtx ℝ)
+    (I : Integrals ℝ) : (panelMatrixYX num m n entry base I).IsHermitian := by
+  rw [panelMatrixYX_eq]; exact panelMatrix_isHermitian num m n entry base I
+
+theorem panelMatrixYX_nested (num : ℕ) {m n m' n' : ℕ} (hm : m ≤ m') (hn : n ≤ n')
+    (entry : Fin num → Fin num → PCtx ℝ → ℝ) (base : PCtx ℝ) (I : Integrals ℝ) (hI : I.Comm)
+    (hsym : ∀ ro co i k j l, entry ro co (ctxAt base I i k j l) = entry co ro (ctxAt base I i k j l).swap) :
+    panelMatrixYX num m n entry base I =
+      (panelMatrixYX num m' n' entry base I).submatrix (embedIndex num hm hn) (embedIndex num hm hn) := by
+  rw [panelMatrixYX_eq, panelMatrixYX_eq]
+  exact panelMatrix_nested num hm hn entry base I hI hsym
+
+theorem panelMatrixYX_posDef_of_le (num : ℕ) {m n m' n' : ℕ} (hm : m ≤ m') (hn : n ≤ n')
+    (entry : Fin num → Fin num → PCtx ℝ → ℝ) (base : PCtx ℝ) (I : Integrals ℝ) (hI : I.Comm)
+    (hsym : ∀ ro co i k j l, entry ro co (ctxAt base I i k j l) = entry co ro (ctxAt base I i k j l).swap)
+    (hpd : (panelMatrixYX num m' n' entry base I).PosDef) : (panelMatrixYX num m n entry base I).PosDef := by
+  rw [panelMatrixYX_nested num hm hn entry base I hI hsym]
+  exact hpd.submatrix (embedIndex_injective num hm hn)
+
+/-- the finalized matrix of a conical-panel kernel (`s` constant-radius sections, section `sec` with its own geometry
+`sectionBase base s sec` and its own integrals `I sec`), placed at `row0 = 0` -/
+noncomputable def conePanelMatrix (s num m n : ℕ) (entry : Fin num → Fin num → PCtx ℝ → ℝ) (base : PCtx ℝ)
+    (I : ℕ → Integrals ℝ) : Matrix (Fin (num * m * n)) (Fin (num * m * n)) ℝ :=
+  fun r c => toFun (conePanelCoo s num m n 0 entry base I) r.val c.val
+
+theorem conePanelMatrix_isHermitian (s num m n : ℕ) (entry : Fin num → Fin num → PCtx ℝ → ℝ) (base : PCtx ℝ)
+    (I : ℕ → Integrals ℝ) : (conePanelMatrix s num m n entry base I).IsHermitian := by
+  ext r c
+  simp only [Matrix.conjTranspose_apply, conePanelMatrix, star_trivial]
+  exact Compmech.PanelLoop.finalize_symmetric _ c.val r.val
+
+/-- entry of the conical panel matrix at two decoded positions: the sum over the sections -/
+theorem conePanelMatrix_apply (s num m n : ℕ) (entry : Fin num → Fin num → PCtx ℝ → ℝ) (base : PCtx ℝ)
+    (I : ℕ → Integrals ℝ) (hI : ∀ sec, (I sec).Comm)
+    (hsym : ∀ sec ro co i k j l, entry ro co (ctxAt (sectionBase base s sec) (I sec) i k j l)
+      = entry co ro (ctxAt (sectionBase base s sec) (I sec) i k j l).swap)
+    {i k j l : ℕ} (hi : i < m) (hk : k < m) (hj : j < n) (hl : l < n) (α β : Fin num)
+    (r c : Fin (num * m * n)) (hr : r.val = dofIndex num m α.val i j) (hc : c.val = dofIndex num m β.val k l) :
+    conePanelMatrix s num m n entry base I r c
+      = ((List.range s).map fun sec => entry α β (ctxAt (sectionBase base s sec) (I sec) i k j l)).sum := by
+  have h := conePanelCoo_entry s num m n 0 entry base I hI hsym hi hk hj hl α β
+  simp only [Nat.zero_add] at h
+  unfold conePanelMatrix
+  rw [hr, hc]
+  exact h
+
+/-- **nesting, conical panel**: nesting holds section by section, hence for the sum over the sections -/
+theorem conePanelMatrix_nested (s num : ℕ) {m n m' n' : ℕ} (hm : m ≤ m') (hn : n ≤ n')
+    (entry : Fin num → Fin num → PCtx ℝ → ℝ) (base : PCtx ℝ) (I : ℕ → Integrals ℝ) (hI : ∀ sec, (I sec).Comm)
+    (hsym : ∀ sec ro co i k j l, entry ro co (ctxAt (sectionBase base s sec) (I sec) i k j l)
+      = entry co ro (ctxAt (sectionBase base s sec) (I sec) i k j l).swap) :
+    conePanelMatrix s num m n entry base I =
+      (conePanelMatrix s num m' n' entry base I).submatrix (embedIndex num hm hn) (embedIndex num hm hn) := by
+  ext r c
+  obtain ⟨hr, hα, hi, hj⟩ := dofIndex_decode num m n r.val r.2
+  obtain ⟨hc, hβ, hk, hl⟩ := dofIndex_decode num m n c.val c.2
+  rw [Matrix.submatrix_apply]
+  rw [conePanelMatrix_apply s num m n entry base I hI hsym hi hk hj hl ⟨_, hα⟩ ⟨_, hβ⟩ r c hr hc]
+  rw [conePanelMatrix_apply s num m' n' entry base I hI hsym (lt_of_lt_of_le hi hm) (lt_of_lt_of_le hk hm)
+    (lt_of_lt_of_le hj hn) (lt_of_lt_of_le hl hn) ⟨_, hα⟩ ⟨_, hβ⟩ _ _ rfl rfl]
+
+theorem conePanelMatrix_posDef_of_le (s num : ℕ) {m n m' n' : ℕ} (hm : m ≤ m') (hn : n ≤ n')
+    (entry : Fin num → Fin num → PCtx ℝ → ℝ) (base : PCtx ℝ) (I : ℕ → Integrals ℝ) (hI : ∀ sec, (I sec).Comm)
+    (hsym : ∀ sec ro co i k j l, entry ro co (ctxAt (sectionBase base s sec) (I sec) i k j l)
+      = entry co ro (ctxAt (sectionBase base s sec) (I sec) i k j l).swap)
+    (hpd : (conePanelMatrix s num m' n' entry base I).PosDef) : (conePanelMatrix s num m n entry base I).PosDef := by
+  rw [conePanelMatrix_nested s num hm hn entry base I hI hsym]
+  exact hpd.submatrix (embedIndex_injective num hm hn)
+
+/-! #### monotonicity for any nested pair -/
+
+section Nested
+open Matrix
+variable {N N' : ℕ} {e : Fin N → Fin N'}
+
+/-- standard problem: `A` a principal sub-matrix of `A'` ⇒ `λ_k(A') ≤ λ_k(A)` -/
+theorem nested_ascEigenvalues_le {A : Matrix (Fin N) (Fin N) ℝ} {A' : Matrix (Fin N') (Fin N') ℝ}
+    (he : Function.Injective e) (hnest : A = A'.submatrix e e) (hA : A.IsHermitian) (hA' : A'.IsHermitian)
+    (k : Fin N) : ascEigenvalues hA' (Fin.castLE (le_of_injective he) k) ≤ ascEigenvalues hA k := by
+  subst hnest
+  exact ascEigenvalues_le_submatrix hA' he hA k
+
+/-- generalised pencil `K v = λ M v` -/
+theorem nested_genEigenvalues_le {K M : Matrix (Fin N) (Fin N) ℝ} {K' M' : Matrix (Fin N') (Fin N') ℝ}
+    (he : Function.Injective e) (hnK : K = K'.submatrix e e) (hnM : M = M'.submatrix e e)
+    (hK : K.IsHermitian) (hM : M.PosDef) (hK' : K'.IsHermitian) (hM' : M'.PosDef) (k : Fin N) :
+    genEigenvalues hK' hM' (Fin.castLE (le_of_injective he) k) ≤ genEigenvalues hK hM k := by
+  subst hnK hnM
+  exact genEigenvalues_le_submatrix hK' hM' he hK hM k
+
+/-- buckling pencil `(K + λ KG) v = 0` -/
+theorem nested_bucklingMultiplier_le {KG K : Matrix (Fin N) (Fin N) ℝ} {KG' K' : Matrix (Fin N') (Fin N') ℝ}
+    (he : Function.Injective e) (hnG : KG = KG'.submatrix e e) (hnK : K = K'.submatrix e e)
+    (hKG : KG.IsHermitian) (hK : K.PosDef) (hKG' : KG'.IsHermitian) (hK' : K'.PosDef) (k : Fin N)
+    (hneg : genEigenvalues hKG hK k < 0) :
+    genEigenvalues hKG' hK' (Fin.castLE (le_of_injective he) k) < 0 ∧
+      bucklingMultiplier hKG' hK' (Fin.castLE (le_of_injective he) k) ≤ bucklingMultiplier hKG hK k := by
+  subst hnG hnK
+  exact bucklingMultiplier_le_submatrix hKG' hK' he hKG hK k hneg
+
+end Nested
+
 /-- the size of the small model does not exceed the size of the large one -/
 theorem size_le (num : ℕ) {m n m' n' : ℕ} (hm : m ≤ m') (hn : n ≤ n') : num * m * n ≤ num * m' * n' :=
   Nat.mul_le_mul (Nat.mul_le_mul_left _ hm) hn
